@@ -64,6 +64,12 @@ def case_st(draw, scenario, steps):
     c = {"scenario": scenario, "seed": draw(st.integers(0, 2 ** 32)), "steps": steps}
     kind = scenario.split(":")[0]
     c["T"] = draw(fl(50, 2000))
+    # optional first stage: the simulation is built and run at another temperature (and pressure / chemical
+    # potential), then re-tuned through its public setters; the sampled stage must obey the new parameters.
+    # Two scenarios always take this route so that every quick run contains it.
+    always = scenario in ("gc:atomic:cubic", "gc:diatomic:tri", "npt:cell+disp", "harm:Box", "dipole:TransRot")
+    c["T0"] = draw(fl(50, 2000)) if (always or draw(st.booleans())) else None
+    c["pre"] = draw(st.integers(200, 3000))
     if kind == "harm":
         # composite proposals need at least two particles to displace more than one label per trial
         kind2 = scenario.split(":")[1]
@@ -133,6 +139,17 @@ def verdict(out, kind, name, mean, se, z, expected, floor_rel=None, floor_abs=No
 
 
 # ------------------------------------------------------------------ scenarios
+def prestage(mc, c, out, **setters):
+    """Run the first stage at the construction parameters, then re-tune through the public setters."""
+    if not c.get("T0"):
+        return
+    for _ in mc.srun(int(c.get("pre", 500))):
+        pass
+    for name, value in setters.items():
+        setattr(mc, name, value)
+    out["labels"].append("retuned-after-first-stage")
+
+
 def run_harm(c, out):
     from quansino.integrators.displacement import Verlet
     from quansino.mc.canonical import Canonical, HamiltonianCanonical
@@ -151,13 +168,13 @@ def run_harm(c, out):
     with warnings.catch_warnings():
         warnings.simplefilter("ignore")
         if prop.startswith("HMC"):
-            mc = HamiltonianCanonical(atoms, temperature=T, max_cycles=1, seed=c["seed"])
+            mc = HamiltonianCanonical(atoms, temperature=c.get("T0") or T, max_cycles=1, seed=c["seed"])
             omega = math.sqrt(k / min(c["masses"][:N]))
             from ase.units import fs
 
             mc.add_move(HamiltonianDisplacementMove(operation=Verlet(dt=c["dtw"] / (omega * fs), max_steps=c["nsteps"])), name="hmc")
         else:
-            mc = Canonical(atoms, temperature=T, max_cycles=1, seed=c["seed"])
+            mc = Canonical(atoms, temperature=c.get("T0") or T, max_cycles=1, seed=c["seed"])
             from quansino.mc.criteria import CanonicalCriteria
 
             if prop == "Ball":
@@ -177,6 +194,8 @@ def run_harm(c, out):
         e = np.empty(c["steps"])
         acc = 0
         from vlib.calcs import model_energy_forces
+
+        prestage(mc, c, out, temperature=T)
 
         for i, _ in enumerate(mc.srun(c["steps"])):
             e[i] = mc.context.last_potential_energy
@@ -218,11 +237,12 @@ def run_dipole(c, out):
     atoms.calc = FastCalc("dipole", {"q": q, "field": field})
     with warnings.catch_warnings():
         warnings.simplefilter("ignore")
-        mc = Canonical(atoms, temperature=T, max_cycles=1, seed=c["seed"])
+        mc = Canonical(atoms, temperature=c.get("T0") or T, max_cycles=1, seed=c["seed"])
         mc.add_move(DisplacementMove([0, 0], Rotation() if prop == "Rotation" else TranslationRotation()), name="r")
         cs = np.empty(c["steps"])
         acc = 0
         worst = 0.0
+        prestage(mc, c, out, temperature=T)
         for i, _ in enumerate(mc.srun(c["steps"])):
             b = atoms.positions[0] - atoms.positions[1]
             L = math.sqrt(b @ b)
@@ -258,12 +278,13 @@ def run_npt(c, out):
     atoms.calc = FastCalc("ideal")
     with warnings.catch_warnings():
         warnings.simplefilter("ignore")
-        mc = Isobaric(atoms, temperature=T, pressure=P, max_cycles=1, seed=c["seed"])
+        mc = Isobaric(atoms, temperature=c.get("T0") or T, pressure=(P * 1.7 if c.get("T0") else P), max_cycles=1, seed=c["seed"])
         mc.add_move(CellMove(IsotropicDeformation(c["size"])), name="c")
         if c["scenario"].endswith("+disp"):
             mc.add_move(DisplacementMove(np.arange(N), Ball(1.0)), name="d")
         V = np.empty(c["steps"])
         acc = tot = 0
+        prestage(mc, c, out, temperature=T, pressure=P)
         for i, _ in enumerate(mc.srun(c["steps"])):
             V[i] = atoms.get_volume()
             if mc.move_history[-1][0] == "c":
@@ -317,12 +338,15 @@ def run_gc(c, out):
     labels = np.repeat(np.arange(n0), k)
     with warnings.catch_warnings():
         warnings.simplefilter("ignore")
-        mc = GrandCanonical(atoms, exchange_atoms=tpl, temperature=T, chemical_potential=mu, number_of_exchange_particles=n0, max_cycles=1, seed=c["seed"])
+        T0 = c.get("T0") or T
+        mu0 = kB * T0 * math.log(lam * lambda3(mass, T0) / V)
+        mc = GrandCanonical(atoms, exchange_atoms=tpl, temperature=T0, chemical_potential=mu0, number_of_exchange_particles=n0, max_cycles=1, seed=c["seed"])
         mc.add_move(ExchangeMove(labels.copy(), TranslationRotation() if k > 1 else None), name="x")
         if geom.endswith("+disp"):
             mc.add_move(DisplacementMove(labels.copy(), Ball(1.0)), name="d", probability=0.5)
         steps = c["steps"]
         acc_x = tot_x = 0
+        prestage(mc, c, out, temperature=T, chemical_potential=mu)
         Ns = np.empty(steps)
         fr, cos, az = [], [], []
         inv = np.linalg.inv(cell)
